@@ -491,6 +491,7 @@ fn score_oracle(c: &ScoreCase, ctx: &mut Ctx) -> CaseResult {
 	let sim = c.spec.build(false);
 	let nd = &sim.w.nodes[0];
 	let g: &'static Graph = nd.network_graph;
+	TLV_STATS.with(|c| c.set((0, 0)));
 	let mut m = GraphModel { nodes: (0..sim.w.n).map(|i| sim.w.node_id(i)).collect(), chans: vec![], applied: 0, rejected: 0 };
 	for k in 0..c.extra_nodes {
 		m.nodes.push(node_key(k + 1));
@@ -539,6 +540,9 @@ fn score_oracle(c: &ScoreCase, ctx: &mut Ctx) -> CaseResult {
 	}
 	let res = scorer_oracle(g, nd.logger, &m, c.decay, &c.ops, &c.queries, &c.fee, &c.tail)?;
 	let ro = g.read_only();
+	let (loc, amb) = TLV_STATS.with(|c| c.get());
+	ctx.label_if(loc > 0, "tlv-tail-located");
+	ctx.label_if(amb > 0, "tlv-tail-not-located");
 	ctx.label_if(res.entries > 0, "scorer:has-entries");
 	ctx.label_if(res.entries > 1, "scorer:several-entries");
 	ctx.label_if(res.nonempty_buckets, "scorer:non-empty-historical-buckets");
@@ -588,6 +592,7 @@ fn sweep_strat() -> impl Strategy<Value = SweepCase> {
 fn sweep_oracle(c: &SweepCase, ctx: &mut Ctx) -> CaseResult {
 	let mut sim = c.spec.build(false);
 	sim.min_reorg_floor = sim.chain.height();
+	TLV_STATS.with(|c| c.set((0, 0)));
 	let x = pick(c.node, sim.w.n);
 	let change = { use bitcoin::hashes::Hash; bitcoin::ScriptBuf::new_p2wpkh(&bitcoin::WPubkeyHash::from_byte_array([7u8; 20])) };
 	let rig_a = Rig::new(change.clone());
@@ -674,6 +679,14 @@ fn sweep_oracle(c: &SweepCase, ctx: &mut Ctx) -> CaseResult {
 			// last persisting call; `regenerate_and_broadcast_spend_if_necessary` above persisted everything
 			vensure!(sw_c.tracked_spendable_outputs() == ta, "sweeper-roundtrip", "after {}: read(persisted bytes) has different tracked outputs than the live sweeper", tag);
 			vensure!(sw_c.current_best_block() == sw_a.current_best_block(), "sweeper-roundtrip", "after {}: read(persisted bytes) has a different best block", tag);
+			drop(sw_c);
+			// unknown TLV records in the sweeper state's tail stream
+			let render = |bytes: &[u8]| -> Result<Vec<u8>, String> {
+				let rig = Rig::new(change.clone());
+				let sw = reload_sweeper(&rig, &sim, x, bytes).map_err(|e| format!("{:?}", e))?;
+				Ok(format!("{:?} {:?}", render_tracked(&sw.tracked_spendable_outputs()), sw.current_best_block()).into_bytes())
+			};
+			tlv_injection_oracle("sweeper", b, &SWEEPER_TAIL, &render)?;
 			if let Some(bb) = rig_b.store.sweeper_bytes() {
 				st.store_compared += 1;
 				if bb == *b {
@@ -694,6 +707,9 @@ fn sweep_oracle(c: &SweepCase, ctx: &mut Ctx) -> CaseResult {
 		}
 	}
 	ctx.sub_evaluations(st.steps_compared);
+	let (loc, amb) = TLV_STATS.with(|c| c.get());
+	ctx.label_if(loc > 0, "tlv-tail-located");
+	ctx.label_if(amb > 0, "tlv-tail-not-located");
 	ctx.label_if(st.tracked_max > 0, "sweeper:tracked-outputs");
 	ctx.label_if(st.tracked_max > 1, "sweeper:several-outputs");
 	ctx.label_if(st.pending_first_conf, "sweeper:sweep-awaiting-first-confirmation");
